@@ -179,7 +179,8 @@ def _rec(acc, case, st, msg, nt, tag):
     if nt:
         acc.cnt[tag + '_nontrivial_sign'] += 1
     if st == 'viol':
-        acc.fail(case, msg)
+        key = 'ncon:swap-one-leg-of-multi-bond-assertion' if (tag == 'ncon' and 'Sanity check: all bad swaps for this edge' in str(msg)) else None
+        acc.fail(case, msg, key=key)
     elif acc.evaluations % 2503 == 0:
         acc.sample(case)
 
